@@ -285,15 +285,34 @@ FUNCTION_INDEX = {}     # name -> [(rel, FunctionDef)]  (set by the check driver
 
 
 IMPORTED_NAMES = {}     # name bound by an import statement anywhere in the package -> dotted origin
+MODULE_CONSTANTS = {}   # name -> [(rel, value expression)] for module-level ``NAME = <expr>``
+_CONST_VALUES = {}
+
+
+class SentinelV:
+    """``NAME = object()`` at module level: a unique value, compared by identity."""
+    hashable_value = True
+
+    def __init__(self, name):
+        self.name = name
+
+    def __repr__(self):
+        return "<sentinel %s>" % self.name
 
 
 def set_function_index(repo):
     FUNCTION_INDEX.clear()
     IMPORTED_NAMES.clear()
+    MODULE_CONSTANTS.clear()
+    _CONST_VALUES.clear()
     for rel, tree in repo.modules.items():
         for node in tree.body:
             if isinstance(node, ast.FunctionDef):
                 FUNCTION_INDEX.setdefault(node.name, []).append((rel, node))
+            elif isinstance(node, ast.Assign) and len(node.targets) == 1 and isinstance(node.targets[0], ast.Name):
+                MODULE_CONSTANTS.setdefault(node.targets[0].id, []).append((rel, node.value))
+            elif isinstance(node, ast.AnnAssign) and isinstance(node.target, ast.Name) and node.value is not None:
+                MODULE_CONSTANTS.setdefault(node.target.id, []).append((rel, node.value))
         for node in ast.walk(tree):
             if isinstance(node, ast.Import):
                 for a in node.names:
@@ -319,6 +338,26 @@ class SelfV:
         return "self"
 
 
+class ItemGetterV:
+    """operator.itemgetter(i, ...)"""
+
+    def __init__(self, idx):
+        self.idx = idx
+
+    def __repr__(self):
+        return "itemgetter%r" % (tuple(self.idx),)
+
+
+class RepeatV:
+    """itertools.repeat(x): an endless supply of one value (only meaningful inside zip)."""
+
+    def __init__(self, value):
+        self.value = value
+
+    def __repr__(self):
+        return "repeat(%r)" % (self.value,)
+
+
 class BoundMethod:
     def __init__(self, obj, name):
         self.obj, self.name = obj, name
@@ -329,7 +368,8 @@ class Builtin:
         self.name = name
 
 
-BUILTINS = ("isinstance", "type", "range", "max", "min", "len", "sorted", "iter", "next", "zip", "enumerate", "reversed", "sum", "any", "all", "abs")
+BUILTINS = ("isinstance", "type", "range", "max", "min", "len", "sorted", "iter", "next", "zip", "enumerate", "reversed", "sum", "any", "all", "abs",
+            "getattr", "hasattr")
 
 
 def truth(v, node=None):
@@ -370,6 +410,8 @@ class Interp:
             return not self.w.choose(("falsy-node-id", v.role))
         if isinstance(v, Opaque):
             return self.w.choose(("truthy-opaque", v.tag))
+        if isinstance(v, SentinelV):
+            return True
         r = self.w.truth_of(self, v)
         if r is not None:
             return r
@@ -641,6 +683,9 @@ class Interp:
                 return r
             if e.id in IMPORTED_NAMES:
                 return Opaque("module:" + IMPORTED_NAMES[e.id])
+            r = self.module_constant(e.id, e)
+            if r is not None:
+                return r
             raise Unsupported(e, "unbound name")
         if isinstance(e, ast.Attribute):
             obj = self.eval(e.value, env)
@@ -661,7 +706,16 @@ class Interp:
             d = DictObj()
             for k, v in zip(e.keys, e.values):
                 if k is None:
-                    raise Unsupported(e, "dict unpacking")
+                    src_ = self.eval(v, env)
+                    if not isinstance(src_, DictObj):
+                        r_ = self.w.concretise_mapping(self, src_, e) if hasattr(self.w, "concretise_mapping") else None
+                        if r_ is None:
+                            raise Unsupported(e, "dict unpacking of %r" % (src_,))
+                        src_ = r_
+                    d.entries.update(src_.entries)
+                    if getattr(src_, "opaque_rest", None):
+                        d.opaque_rest = src_.opaque_rest
+                    continue
                 d.entries[self.dict_key(self.eval(k, env), e)] = self.eval(v, env)
             return d
         if isinstance(e, ast.BoolOp):
@@ -711,6 +765,20 @@ class Interp:
             else:
                 self.w.on_yield(self, v, e)
             return NONE
+        if isinstance(e, ast.YieldFrom):
+            v = self.eval(e.value, env)
+            seq = _concrete_seq(v)
+            if seq is None:
+                c = self.w.concretise_iter(self, v, e)
+                seq = list(c.items) if isinstance(c, (ListObj, TupleV)) else None
+            if seq is None:
+                raise Unsupported(e, "yield from %r" % (v,))
+            for x in seq:
+                if self.yield_stack:
+                    self.yield_stack[-1].append(x)
+                else:
+                    self.w.on_yield(self, x, e)
+            return NONE
         if isinstance(e, ast.JoinedStr):
             parts = []
             for v in e.values:
@@ -729,6 +797,29 @@ class Interp:
                 return r
             return self.w.eval_comprehension(self, e, env)
         raise Unsupported(e, "expression kind %s" % type(e).__name__)
+
+    def module_constant(self, name, node):
+        cands = MODULE_CONSTANTS.get(name, [])
+        rel = getattr(self.w, "current_rel", None)
+        same = [c for c in cands if c[0] == rel] or cands
+        if len(same) != 1:
+            return None
+        key = (same[0][0], name)
+        if key not in _CONST_VALUES:
+            ve = same[0][1]
+            if isinstance(ve, ast.Call) and isinstance(ve.func, ast.Name) and ve.func.id == "object" and not ve.args:
+                _CONST_VALUES[key] = SentinelV(name)
+            else:
+                try:
+                    lit = ast.literal_eval(ve)
+                except Exception:
+                    return None
+                _CONST_VALUES[key] = _from_py(lit)
+                if _CONST_VALUES[key] is None:
+                    del _CONST_VALUES[key]
+                    return None
+        v = _CONST_VALUES[key]
+        return _fresh_copy(v)
 
     def binop(self, a, op, b, node):
         if isinstance(op, (ast.Add, ast.Sub)):
@@ -800,6 +891,8 @@ class Interp:
         raise Unsupported(node, "comparison %r %s %r" % (a, sym, b))
 
     def generic_eq(self, a, b, node):
+        if isinstance(a, SentinelV) or isinstance(b, SentinelV):
+            return a is b
         if isinstance(a, TypeV) and isinstance(b, TypeV):
             return a.name == b.name
         if isinstance(a, Const) and isinstance(b, Const):
@@ -970,6 +1063,8 @@ class Interp:
             if f.name in ("list", "tuple", "set") and len(args) == 1:
                 c = self.w.concretise_iter(self, args[0], e)
                 seq = _concrete_seq(c if c is not None else args[0])
+                if seq is None and not getattr(self.w, "abstract_ranges", False):
+                    seq = _range_seq(args[0])
                 if seq is not None:
                     if f.name == "set":
                         for x in seq:
@@ -1003,16 +1098,29 @@ class Interp:
             raise Unsupported(e, "constructor call")
         if isinstance(f, BoundMethod):
             return self.call_method(f, args, kwargs, e)
-        if isinstance(f, Opaque) and f.tag.startswith("module:itertools.") and not kwargs:
-            import itertools as _it
-            fname = f.tag.split(".", 1)[1]
-            seqs = [_concrete_seq(a) for a in args]
-            if fname in ("product", "chain") and all(q is not None for q in seqs):
-                if fname == "product":
-                    return IterV([TupleV(list(t)) for t in _it.product(*seqs)])
-                return IterV([x for q in seqs for x in q])
-            if fname in ("combinations", "permutations") and len(args) == 2 and seqs[0] is not None and isinstance(args[1], Const):
-                return IterV([TupleV(list(t)) for t in getattr(_it, fname)(seqs[0], args[1].v)])
+        if isinstance(f, Opaque) and f.tag == "module:collections.defaultdict" and len(args) <= 1 and not kwargs:
+            d = DictObj()
+            if args and not (isinstance(args[0], Const) and args[0].v is None):
+                fac = args[0]
+                if isinstance(fac, TypeV) and fac.name in ("set", "list", "dict", "int", "float"):
+                    d.default_factory = {"set": SetObj, "list": lambda: ListObj([]), "dict": DictObj, "int": lambda: Const(0),
+                                         "float": lambda: Const(0.0)}[fac.name]
+                elif isinstance(fac, LambdaV):
+                    d.default_factory = lambda fac=fac, e=e: self.call_value(fac, [], e)
+                else:
+                    raise Unsupported(e, "defaultdict factory %r" % (fac,))
+            return d
+        if isinstance(f, Opaque) and f.tag == "module:collections.OrderedDict" and not args and not kwargs:
+            return DictObj()
+        if isinstance(f, Opaque) and f.tag == "module:operator.itemgetter" and args and not kwargs and all(
+                isinstance(a, Const) and isinstance(a.v, int) for a in args):
+            return ItemGetterV([a.v for a in args])
+        if isinstance(f, ItemGetterV) and len(args) == 1 and not kwargs:
+            return self.call_value(f, args, e)
+        if isinstance(f, Opaque) and f.tag.startswith("module:itertools."):
+            r = self.call_itertools(f.tag.split(".", 1)[1], args, kwargs, e)
+            if r is not None:
+                return r
         if isinstance(f, Opaque) and f.tag in ("module:copy.copy", "module:copy.deepcopy") and len(args) == 1 and \
                 isinstance(args[0], (Const, NodeV, Int, TupleV)):
             return args[0]
@@ -1038,7 +1146,81 @@ class Interp:
                 self.depth -= 1
         return self.w.call(self, f, args, kwargs, e)
 
+    def _seq(self, a, node):
+        q = _concrete_seq(a)
+        if q is None and not isinstance(a, (Const, Int, NodeV, Opaque, RepeatV)):
+            c = self.w.concretise_iter(self, a, node)
+            if isinstance(c, (ListObj, TupleV)):
+                q = list(c.items)
+        return q
+
+    def call_itertools(self, fname, args, kwargs, node):
+        import itertools as _it
+        if fname == "repeat" and 1 <= len(args) <= 2 and not kwargs:
+            if len(args) == 2:
+                if isinstance(args[1], Const) and isinstance(args[1].v, int):
+                    return IterV([args[0]] * args[1].v)
+                return None
+            return RepeatV(args[0])
+        if fname == "count" and len(args) <= 1 and not kwargs:
+            return None
+        seqs = [self._seq(a, node) for a in args]
+        if fname == "product" and set(kwargs) <= {"repeat"} and all(q is not None for q in seqs):
+            rep = kwargs.get("repeat", Const(1))
+            if not (isinstance(rep, Const) and isinstance(rep.v, int)):
+                return None
+            return IterV([TupleV(list(t)) for t in _it.product(*seqs, repeat=rep.v)])
+        if kwargs:
+            return None
+        if fname == "chain" and all(q is not None for q in seqs):
+            return IterV([x for q in seqs for x in q])
+        if fname == "chain.from_iterable" and len(args) == 1 and seqs[0] is not None:
+            out = []
+            for part in seqs[0]:
+                q = self._seq(part, node)
+                if q is None:
+                    return None
+                out += q
+            return IterV(out)
+        if fname in ("combinations", "permutations", "combinations_with_replacement") and len(args) == 2 and seqs[0] is not None \
+                and isinstance(args[1], Const):
+            return IterV([TupleV(list(t)) for t in getattr(_it, fname)(seqs[0], args[1].v)])
+        if fname == "islice" and 2 <= len(args) <= 4 and seqs[0] is not None:
+            nums = []
+            for a in args[1:]:
+                if isinstance(a, Const) and (a.v is None or isinstance(a.v, int)):
+                    nums.append(a.v)
+                else:
+                    return None
+            return IterV(list(_it.islice(seqs[0], *nums)))
+        if fname == "pairwise" and len(args) == 1 and seqs[0] is not None:
+            return IterV([TupleV([a, b]) for a, b in zip(seqs[0], seqs[0][1:])])
+        if fname == "zip_longest" and all(q is not None for q in seqs):
+            return IterV([TupleV(list(t)) for t in _it.zip_longest(*seqs, fillvalue=NONE)])
+        return None
+
+    KNOWN_STATE = {"_adj", "_succ", "_pred", "adj", "succ", "pred", "_node", "time_to_edge", "snapshots", "edge_removal", "directed",
+                   "graph", "name", "__class__"}
+
     def call_builtin(self, name, args, kwargs, node):
+        if name in ("getattr", "hasattr") and len(args) in (2, 3) and isinstance(args[1], Const) and isinstance(args[1].v, str) \
+                and not kwargs and isinstance(args[0], SelfV):
+            attr = args[1].v
+            aux = getattr(self.w, "aux_attrs", None) or {}
+            known = attr in aux or attr in (getattr(self.w, "methods", None) or {}) or attr in self.KNOWN_STATE
+            if name == "hasattr":
+                if known:
+                    return TRUE
+                if attr.startswith("_") and not attr.startswith("__"):
+                    return FALSE          # a private attribute nothing in this run has set
+                raise Unsupported(node, "hasattr(self, %r)" % attr)
+            if known:
+                return self.load_attr(args[0], attr, node)
+            if attr.startswith("_") and not attr.startswith("__"):
+                if len(args) == 3:
+                    return args[2]
+                raise AbstractRaise("AttributeError", node, detail="self.%s is read before anything sets it" % attr)
+            raise Unsupported(node, "getattr(self, %r)" % attr)
         if name == "isinstance" and len(args) == 2:
             tn = self.type_of(args[0], node).name
             types = args[1].items if isinstance(args[1], TupleV) else [args[1]]
@@ -1089,25 +1271,12 @@ class Interp:
                     if self.cmp_int(x, best, ">" if name == "max" else "<", node):
                         best = x
                 return best
-        if name == "sorted" and len(args) == 1 and not kwargs:
+        if name == "sorted" and len(args) == 1 and set(kwargs) <= {"reverse", "key"}:
             seq = _concrete_seq(args[0])
-            if seq is not None and all(isinstance(x, Const) and isinstance(x.v, (int, float)) for x in seq):
-                return ListObj(sorted(seq, key=lambda c: c.v))
-            if seq is not None and seq and all(isinstance(x, (ListObj, TupleV)) and x.items and all(isinstance(y, Int) for y in x.items)
-                                               for x in seq):
-                import functools
-
-                def lex(a, b):
-                    for p, q in zip(a.items, b.items):
-                        if self.cmp_int(p, q, "==", node):
-                            continue
-                        return -1 if self.cmp_int(p, q, "<", node) else 1
-                    return len(a.items) - len(b.items)
-                return ListObj(sorted(seq, key=functools.cmp_to_key(lex)))
-            if seq is not None and seq and all(isinstance(x, Int) for x in seq):
-                import functools
-                return ListObj(sorted(seq, key=functools.cmp_to_key(
-                    lambda a, b: 0 if self.cmp_int(a, b, "==", node) else (-1 if self.cmp_int(a, b, "<", node) else 1))))
+            if seq is not None:
+                r = self.sort_seq(seq, kwargs, node)
+                if r is not None:
+                    return ListObj(r)
         if name in ("float", "abs", "bool") and len(args) == 1 and isinstance(args[0], Const):
             return Const({"float": float, "abs": abs, "bool": bool}[name](args[0].v))
         if name == "len" and len(args) == 1:
@@ -1146,13 +1315,98 @@ class Interp:
                 start = sv.v
             seq = args[0].drain() if isinstance(args[0], IterV) else list(args[0].items)
             return ListObj([TupleV([Const(i + start), x]) for i, x in enumerate(seq)])
-        if name == "zip" and args and all(isinstance(a, (ListObj, TupleV, IterV)) for a in args):
-            seqs = [a.drain() if isinstance(a, IterV) else list(a.items) for a in args]
-            return ListObj([TupleV(t) for t in zip(*seqs)])
+        if name == "zip" and args and all(isinstance(a, (ListObj, TupleV, IterV, RepeatV)) for a in args) \
+                and not all(isinstance(a, RepeatV) for a in args):
+            finite = [a.drain() if isinstance(a, IterV) else list(a.items) for a in args if not isinstance(a, RepeatV)]
+            n = min(len(q) for q in finite)
+            it_f = iter(finite)
+            seqs = [[a.value] * n if isinstance(a, RepeatV) else next(it_f) for a in args]
+            return ListObj([TupleV(list(t)) for t in zip(*seqs)])
         r = self.w.call_builtin(self, name, args, kwargs, node)
         if r is not None:
             return r
         raise Unsupported(node, "builtin %s%r" % (name, tuple(args)))
+
+    def _order(self, a, b, node):
+        """-1 / 0 / 1 for two comparable abstract values, None when their order is not modelled."""
+        if isinstance(a, (Int, Const)) and isinstance(b, (Int, Const)):
+            if isinstance(a, Const) and isinstance(b, Const):
+                if isinstance(a.v, str) and isinstance(b.v, str) or (
+                        isinstance(a.v, (int, float)) and isinstance(b.v, (int, float))):
+                    return -1 if a.v < b.v else (1 if a.v > b.v else 0)
+                return None
+            if isinstance(a, Const) and not isinstance(a.v, int) or isinstance(b, Const) and not isinstance(b.v, int):
+                return None
+            if self.cmp_int(a, b, "==", node):
+                return 0
+            return -1 if self.cmp_int(a, b, "<", node) else 1
+        if isinstance(a, (ListObj, TupleV)) and isinstance(b, (ListObj, TupleV)) and type(a) is type(b):
+            for p, q in zip(a.items, b.items):
+                c = self._order(p, q, node)
+                if c is None:
+                    return None
+                if c:
+                    return c
+            return (len(a.items) > len(b.items)) - (len(a.items) < len(b.items))
+        if isinstance(a, NodeV) and isinstance(b, NodeV):
+            if a.role == b.role:
+                return 0
+            lt = self.w.compare(self, a, "<", b, node)
+            if lt is None:
+                return None
+            return -1 if lt else 1
+        return None
+
+    def sort_seq(self, seq, kwargs, node):
+        import functools
+        rev = kwargs.get("reverse", FALSE)
+        if not isinstance(rev, Const):
+            return None
+        keyf = kwargs.get("key")
+        if keyf is not None and not (isinstance(keyf, Const) and keyf.v is None):
+            keys = [self.call_value(keyf, [x], node) for x in seq]
+        else:
+            keys = list(seq)
+        unknown = []
+
+        def cmp(i, j):
+            c = self._order(keys[i], keys[j], node)
+            if c is None:
+                unknown.append((keys[i], keys[j]))
+                return 0
+            return c
+        idx = sorted(range(len(seq)), key=functools.cmp_to_key(cmp), reverse=bool(rev.v))
+        if unknown:
+            return None
+        return [seq[i] for i in idx]
+
+    def call_value(self, f, args, node):
+        """Call an abstract callable on already evaluated arguments."""
+        if isinstance(f, LambdaV):
+            a = f.node.args
+            names = [x.arg for x in a.args]
+            if len(args) != len(names) or a.vararg or a.kwarg:
+                raise Unsupported(node, "lambda call")
+            env2 = dict(f.env)
+            env2.update(zip(names, args))
+            return self.eval(f.node.body, env2)
+        if isinstance(f, PyFunc):
+            env = _bind(f.fn, list(args), {}, self, node)
+            self.depth += 1
+            try:
+                return self.call_function(f.fn, env)
+            finally:
+                self.depth -= 1
+        if isinstance(f, Builtin):
+            return self.call_builtin(f.name, list(args), {}, node)
+        if isinstance(f, BoundMethod):
+            return self.call_method(f, list(args), {}, node)
+        if isinstance(f, Opaque) and f.tag in ("module:operator.itemgetter()",):
+            raise Unsupported(node, "itemgetter")
+        if isinstance(f, ItemGetterV):
+            outs = [self.load_subscript(args[0], Const(i), node) for i in f.idx]
+            return outs[0] if len(outs) == 1 else TupleV(outs)
+        return self.w.call(self, f, list(args), {}, node)
 
     def type_of(self, v, node):
         t = self.w.type_of(self, v)
@@ -1202,6 +1456,41 @@ class Interp:
                     if self.generic_eq(x, args[0], node):
                         return Const(i)
                 raise AbstractRaise("ValueError", node, detail="value not in list")
+            if name == "sort" and not args and set(kwargs) <= {"reverse", "key"} and not getattr(obj, "has_prefix", False):
+                r = self.sort_seq(list(obj.items), kwargs, node)
+                if r is not None:
+                    if obj.persistent:
+                        self.w.effect(("heap_write", obj.tag, "sort"), node)
+                    obj.items[:] = r
+                    return NONE
+            if name == "reverse" and not args and not getattr(obj, "has_prefix", False):
+                if obj.persistent:
+                    self.w.effect(("heap_write", obj.tag, "reverse"), node)
+                obj.items.reverse()
+                return NONE
+            if name == "copy" and not args:
+                return ListObj(list(obj.items))
+            if name == "count" and len(args) == 1:
+                return Const(sum(1 for x in obj.items if self.generic_eq(x, args[0], node)))
+            if name == "insert" and len(args) == 2 and isinstance(args[0], Const) and isinstance(args[0].v, int) \
+                    and not getattr(obj, "has_prefix", False):
+                if obj.persistent:
+                    self.w.effect(("heap_append", obj.tag, "insert"), node)
+                obj.items.insert(args[0].v, args[1])
+                return NONE
+            if name == "remove" and len(args) == 1:
+                for i, x in enumerate(obj.items):
+                    if self.generic_eq(x, args[0], node):
+                        if obj.persistent:
+                            self.w.effect(("heap_del", obj.tag, i), node)
+                        del obj.items[i]
+                        return NONE
+                raise AbstractRaise("ValueError", node, detail="list.remove(x): x not in list")
+            if name == "clear" and not args:
+                if obj.persistent:
+                    self.w.effect(("heap_del", obj.tag, "clear"), node)
+                del obj.items[:]
+                return NONE
             raise Unsupported(node, "list method %s" % name)
         if isinstance(obj, SetObj):
             if name == "add" and len(args) == 1:
@@ -1218,6 +1507,8 @@ class Interp:
                 return NONE
             if name in ("update", "union", "intersection", "difference") and len(args) == 1:
                 seq = _concrete_seq(args[0])
+                if seq is None:
+                    seq = _range_seq(args[0])
                 if seq is not None:
                     if name == "update":
                         for x in seq:
@@ -1339,6 +1630,50 @@ def _is_generator_uncached(fn):
             continue
         stack.extend(ast.iter_child_nodes(n))
     return False
+
+
+def _from_py(x):
+    if isinstance(x, (int, float, str, bool, bytes, type(None))):
+        return Const(x)
+    if isinstance(x, tuple):
+        items = [_from_py(i) for i in x]
+        return None if any(i is None for i in items) else TupleV(items)
+    if isinstance(x, list):
+        items = [_from_py(i) for i in x]
+        return None if any(i is None for i in items) else ListObj(items)
+    if isinstance(x, (set, frozenset)):
+        items = [_from_py(i) for i in sorted(x, key=repr)]
+        return None if any(i is None for i in items) else SetObj(items)
+    if isinstance(x, dict):
+        d = DictObj()
+        for k, v in x.items():
+            kk, vv = _from_py(k), _from_py(v)
+            if kk is None or vv is None:
+                return None
+            d.entries[kk] = vv
+        return d
+    return None
+
+
+def _fresh_copy(v):
+    if isinstance(v, ListObj):
+        return ListObj([_fresh_copy(i) for i in v.items])
+    if isinstance(v, SetObj):
+        return SetObj(list(v.items))
+    if isinstance(v, DictObj):
+        return DictObj({k: _fresh_copy(x) for k, x in v.entries.items()})
+    return v
+
+
+def _range_seq(v):
+    """range(lo, hi) whose bounds differ by a known amount -> its elements"""
+    if isinstance(v, RangeV):
+        lo, hi = v.lo, v.hi
+        if isinstance(lo, Int) and isinstance(hi, Int) and lo.base == hi.base and hi.k - lo.k <= 64:
+            return [Int(lo.base, k) for k in range(lo.k, hi.k)]
+        if isinstance(lo, Const) and isinstance(hi, Const) and isinstance(lo.v, int) and isinstance(hi.v, int) and hi.v - lo.v <= 64:
+            return [Const(k) for k in range(lo.v, hi.v)]
+    return None
 
 
 def _concrete_seq(v):
